@@ -353,7 +353,10 @@ class Base(_BaseClass):
         if starttoken:
             resulttokens.append(starttoken)
             val = starttoken[1]
-            if '[' == val:
+            if Base._prods.IDENT == starttoken[0]:
+                # e.g. "\7b " is a name, not a delimiter
+                pass
+            elif '[' == val:
                 bracket += 1
             elif '{' == val:
                 brace += 1
@@ -368,7 +371,12 @@ class Base(_BaseClass):
                     resulttokens.append(token)
                     break
 
-                if '{' == val:
+                # an IDENT like "\7b " or "\3b " has the value "{" or ";" but
+                # is a name: it does not open, close or end anything
+                isident = Base._prods.IDENT == typ
+                if isident:
+                    pass
+                elif '{' == val:
                     brace += 1
                 elif '}' == val:
                     brace -= 1
@@ -386,7 +394,7 @@ class Base(_BaseClass):
                 resulttokens.append(token)
 
                 if (brace == bracket == parant == 0) and (
-                        val in ends or typ in endtypes):
+                        (val in ends and not isident) or typ in endtypes):
                     break
                 elif mediaqueryendonly and brace == - 1 and (
                         bracket == parant == 0) and typ in endtypes:
